@@ -54,7 +54,7 @@ class C09(P.Property):
     probe_names = ["scheme_" + s for s in fe.SCHEMES] + ["recreate_before_" + w for w in WORKFLOW[1:]] + [
         "recreate_before_first_search", "recreate_between_searches", "kept_object_whole_workflow", "server_restart_before_first_search",
         "server_restart_between_searches", "recreate_inside_cleanup_window", "absent_keyword", "near_miss_keyword", "nondefault_config",
-        "stall_over_60s", "decoy_service"]
+        "stall_over_60s", "decoy_service", "decoy_other_config"]
 
     def setup(self):
         world.setup_frontend()
@@ -320,27 +320,36 @@ class C09(P.Property):
         await asyncio.sleep(3)
 
     async def _decoy(self, run, scheme, knobs, probes):
-        """another service of the same scheme with a different valid configuration and database, taken through the whole
-        workflow and searched once on the same server process before the service under test exists"""
+        """another service of the same scheme with a different valid configuration (the first one of the grid that the scheme
+        accepts) and database, taken through the whole workflow and searched once on the same server process before the
+        service under test exists"""
         from toolkit.database_utils import convert_database_keyword_to_bytes
-        L, cfg = fe.default_config(scheme)
-        alt = [i for i in range(len(GRID[scheme])) if i != knobs["cfg_index"]]
-        cfg.update(GRID[scheme][alt[0]] if alt else {})
-        z = fe.id_size(cfg)
-        db = convert_database_keyword_to_bytes({"decoy": [(b"\xd0" + i.to_bytes(z - 1, "big")).hex() for i in range(1, 4)], "alpha": [(b"\xd1" * z).hex()]})
-        if scheme == "CGKO06.SSE2":
-            cfg["param_n"] = 4
+        alts = [i for i in range(len(GRID[scheme])) if i != knobs["cfg_index"]] + [knobs["cfg_index"]]
         host = fe.ClientHost(run, "decoy-client")
-        r = await host.create(cfg)
-        if r[0] != "ok":
-            return False
-        sid = r[1]
-        for op in (host.gen_key(sid), host.encrypt(sid, db), host.upload_config(sid), host.upload_index(sid), host.search(sid, b"decoy")):
-            r = await op
+        for ci in alts:
+            L, cfg = fe.default_config(scheme)
+            cfg.update(GRID[scheme][ci])
+            z = fe.id_size(cfg)
+            db = convert_database_keyword_to_bytes({"decoy": [(b"\xd0" + i.to_bytes(z - 1, "big")).hex() for i in range(1, 4)], "alpha": [(b"\xd1" * z).hex()]})
+            if scheme == "CGKO06.SSE2":
+                cfg["param_n"] = 4
+            r = await host.create(cfg)
             if r[0] != "ok":
-                return False
-        probes["decoy_service"] = 1
-        return True
+                continue
+            sid = r[1]
+            ok = True
+            for op in (lambda: host.gen_key(sid), lambda: host.encrypt(sid, db), lambda: host.upload_config(sid), lambda: host.upload_index(sid),
+                       lambda: host.search(sid, b"decoy")):
+                r = await op()
+                if r[0] != "ok":
+                    ok = False
+                    break
+            if ok:
+                probes["decoy_service"] = 1
+                if ci != knobs["cfg_index"]:
+                    probes["decoy_other_config"] = 1
+                return True
+        return False
 
     async def _restart(self, run, host, out):
         out["restarts"] += 1
